@@ -1852,6 +1852,10 @@ func patchCode(context *funcContext) { // {{{
 	}
 	moven := 0
 	code := context.Code.List()
+	// jump threading must read the label ids of the unpatched instructions: a backward target that is itself
+	// a JMP has already been rewritten to a distance by the time the jump to it is resolved
+	orig := make([]uint32, len(code))
+	copy(orig, code)
 	for pc := 0; pc < len(code); pc++ {
 		inst := code[pc]
 		curop := opGetOpCode(inst)
@@ -1900,7 +1904,7 @@ func patchCode(context *funcContext) { // {{{
 		case OP_JMP: // jump to jump optimization
 			distance := 0
 			count := 0 // avoiding infinite loops
-			for jmp := inst; opGetOpCode(jmp) == OP_JMP && count < 5; jmp = context.Code.At(pc + distance + 1) {
+			for jmp := inst; opGetOpCode(jmp) == OP_JMP && count < 5; jmp = orig[pc+distance+1] {
 				d := context.GetLabelPc(opGetArgSbx(jmp)) - pc
 				if d > opMaxArgSbx || d < -opMaxArgSbx {
 					if distance == 0 {
